@@ -38,6 +38,7 @@ type SignIn struct {
 	Art struct {
 		Annotated bool   `json:"annotated"`
 		Store     string `json:"store"`
+		SignerAnn string `json:"signerAnn"`
 	} `json:"art"`
 	Calls []SignCall `json:"calls"`
 }
@@ -144,6 +145,15 @@ func (s *recSigner) Sign(ctx context.Context, desc ocispec.Descriptor, opts nota
 	return s.inner.Sign(ctx, desc, opts)
 }
 
+// a signer that supplies signature manifest annotations of its own (as signer.PluginSigner does for plugins that
+// generate envelopes)
+type annSigner struct {
+	*recSigner
+	ann map[string]string
+}
+
+func (s *annSigner) PluginAnnotations() map[string]string { return s.ann }
+
 func buildLayout(dir string, annotated bool) (ocispec.Descriptor, error) {
 	ctx := context.Background()
 	store, err := oci.New(dir)
@@ -245,6 +255,15 @@ func runNotationSign() int {
 		inner, err := signer.NewGenericSigner(chain.LeafKey(), chain.Certs)
 		must(err)
 		sg := &recSigner{inner: inner}
+		var theSigner notation.Signer = sg
+		switch in.Art.SignerAnn {
+		case "unrelated":
+			theSigner = &annSigner{sg, map[string]string{"io.example.plugin/note": "from the signer"}}
+		case "clashing":
+			theSigner = &annSigner{sg, map[string]string{"io.example.plugin/note": "from the signer",
+				"io.cncf.notary.x509chain.thumbprint#S256": `["0000000000000000000000000000000000000000000000000000000000000000"]`,
+				ocispec.AnnotationCreated:                  "2001-01-01T00:00:00Z"}}
+		}
 
 		for _, call := range in.Calls {
 			if in.Art.Store == "ociReopen" {
@@ -301,7 +320,7 @@ func runNotationSign() int {
 			var serr error
 			var retArt ocispec.Descriptor
 			panicked, msg := guarded(func() {
-				retArt, _, serr = notation.SignOCI(ctx, sg, repo, notation.SignOptions{
+				retArt, _, serr = notation.SignOCI(ctx, theSigner, repo, notation.SignOptions{
 					SignerSignOptions: notation.SignerSignOptions{SignatureMediaType: mediaTypeOf(format), PluginConfig: pluginCfg},
 					ArtifactReference: ref, UserMetadata: meta})
 			})
